@@ -540,6 +540,11 @@ func (s *Server) handleNewConnection(ctx context.Context, rwc io.ReadWriteCloser
 
 	c.Account = c.Server.AccountManager.Get(login)
 	if c.Account == nil {
+		// The account was deleted between the password check and this look-up: answer like a failed login instead of
+		// closing the connection without a word.
+		t := c.NewErrReply(&clientLogin, "Incorrect login.")[0]
+		_, _ = io.Copy(rwc, &t)
+
 		return nil
 	}
 
